@@ -25,6 +25,7 @@ DEFAULT_OPTS = {
   "sloppy": 0,               # C10: probability (in 1/16) that a sub-expression is requested with a wrong width
   "translatable": False,     # stay inside what the RTLIR type checker / translators accept
   "no_sext_compound": False, # exclusion switch for the known finding "sext of a compound operand"
+  "struct_bias": 0,          # 0..4: how often a new signal gets a struct type
   "min_depth": 0,
   "child_bias": 0,           # extra weight for instantiating children in a step
   "ff_heavy": False,         # C07: many registers, one ff block per register, ff blocks read each other's registers
@@ -71,7 +72,7 @@ class ClassBuilder:
 
   def any_type(self, allow_struct=True):
     d = self.draw
-    if allow_struct and self.opts["structs"] is True and d(st.integers(0, 4)) == 0:
+    if allow_struct and self.opts["structs"] is True and d(st.integers(0, 4)) <= self.opts.get("struct_bias", 0):
       return small_struct(d)
     return ["b", W(d, self.opts)]
 
